@@ -20,9 +20,9 @@ CHECKS["C01"] = dict(
     claim=("Every sequence of view-forming operations up to the depth bound (quick 3, thorough 5) from every root shape is executed on the real views and compared, state by state and "
            "index tuple by index tuple, with the affine reference model; this is a complete enumeration within the bound, which is the right level for a universally quantified "
            "statement about compositions that tests only sample."),
-    jobs=lambda tier: ranks_jobs("viewmc", "san", tier),
+    jobs=lambda tier: ranks_jobs("viewmc", "san", tier, extra_defs=["-DVM_CONST_ROOTS"]),
     rule=("breadth-first search over view states: state = (base offset, per-dimension (first,size,stride), read-only-type bit) reached by an operation history from a root "
-          "array_ref/array (shapes incl. sizes 0 and 1, D=1..4, results up to D=5); alphabet = index, sliced(a,b), sliced(a,b,s), strided, dropped, taked, rotated, unrotated, "
+          "array_ref/array (shapes incl. sizes 0 and 1, D=1..4, results up to D=5; every array_ref root also through a const reference, so that the read-only view family is explored from the root); alphabet = index, sliced(a,b), sliced(a,b,s), strided, dropped, taked, rotated, unrotated, "
           "transposed, ~, reversed, diagonal, partitioned, chunked, flatted, v(), call syntax with index/range/all arguments (full product at the root, reduced menu deeper), "
           "every in-domain argument; every transition is executed on the real view; at every new state: size/sizes/extensions/num_elements/is_empty/strides vs the affine model, "
           "and the address of EVERY valid index tuple via brackets, call syntax, apply(tuple), cursor indexing and cursor += against root + model offset, inside the root's storage; "
@@ -38,7 +38,7 @@ CHECKS["C02"] = dict(
     claim=("At every view state reached by the E1 search (quick depth 2, thorough depth 3) the random-access laws are checked for ALL positions 0..size and ALL in-range offsets, for "
            "begin/end, cbegin/cend, iterators of the const view, and elements() (mutable and const): positions are compared by dereferenced ADDRESS against the model, never by iterator "
            "equality alone. Complete enumeration of states x positions x offsets within the bound."),
-    jobs=lambda tier: ranks_jobs("itermc", "san", tier),
+    jobs=lambda tier: ranks_jobs("itermc", "san", tier, extra_defs=["-DVM_CONST_ROOTS"]),
     rule=("E1 breadth-first search over view states (same alphabet as C01, reduced call menu); at each new state, for every iterator family (iterator, const_iterator, iterator of const view, "
           "elements(), const elements()): for all p in [0,size], all k with p+k in [0,size]: ++/-- inverse (pre/post), (it+k)-k==it and same address, (it+k)-it==k, +=k;-=k returns to same "
           "address, < <= > >= == != consistent with k, it[k] is *(it+k), copied and ASSIGNED iterators (assignment over an iterator at another position) designate the same address and advance "
